@@ -82,7 +82,10 @@ class Ledger:
         n_ref = min(self.norm_in, n_out, 1.0)
         for _ in range(k):
             x = max(0.0, n_ref - self.b)
-            self.b += float(np.sqrt(max(0.0, 1.0 - x * x)))
+            # the norm is known to a few ulps only, so a leak below sqrt(16 eps) = 6e-8 in amplitude is invisible in it
+            # (1 - x^2 resolves 1e-16, the amplitude is its square root): that is the least a truncating gate adds
+            # (false alarm of the thorough tier at 2.7e-9 with a ledger bound of exactly 0, DESIGN 7.4)
+            self.b += float(np.sqrt(max(16 * np.finfo(float).eps, 1.0 - x * x)))
 
 
 class Ctx:
